@@ -10,6 +10,7 @@ Definition check_prop (p : Z) (inp obs : V) : verdict :=
   | 1%Z => check_handshake gen_hs_params inp obs
   | 2%Z => check_negotiate inp obs
   | 102%Z => check_clientver inp obs
+  | 202%Z => check_negotiate2 inp obs
   | 100%Z => check_gostrings inp obs
   | _ => bad_case
   end.
